@@ -45,7 +45,121 @@ def gen(rng, tier):
             # connections arriving while the trigger fires: each request is either answered in full or was never handed to an application
             for k in range(4 if tier == "quick" else 12):
                 yield {"family": "burst-across-trigger", "backend": be, "kind": "burst_across_trigger", "count": 16, "trigger": "callable", "rep": rep * 10 + k}
+            # the real master process and its workers, real signals
+            import signal as _signal
+            for workers, sig in (((2, int(_signal.SIGTERM)), (2, int(_signal.SIGINT))) if tier == "quick" else ((1, int(_signal.SIGTERM)), (2, int(_signal.SIGTERM)), (2, int(_signal.SIGINT)), (3, int(_signal.SIGTERM)))):
+                yield {"family": "process.%s.w%d" % (_signal.Signals(sig).name, workers), "backend": be, "kind": "process_signal", "count": 5, "workers": workers,
+                       "signal": sig, "trigger": "signal", "rep": rep}
             yield {"family": "lifespan-lingers.inflight", "backend": be, "kind": "inflight_short", "count": 1, "trigger": "callable", "rep": rep, "ls": "lingers"}
+
+
+def _process_signal(case, tally):
+    """The real master process (python -m hypercorn, spawn-ed workers) is sent SIGTERM / SIGINT while requests are in progress in its
+    workers.  Monitors: a log written by the application itself (worker pid, request start/done, lifespan start-up/shutdown) and the client's
+    view.  Judged on order and counts: every request in progress at the signal and finishing inside the grace period is delivered in full;
+    each worker's lifespan.shutdown comes once and after the last request it had in progress returned; nothing is started by a worker after
+    its lifespan.shutdown; the master exits with status 0 (a generous wall-clock watchdog only makes the run inconclusive)."""
+    import os, shutil, signal, socket, subprocess, sys, tempfile, threading
+
+    findings = []
+    be, workers, nconn, sig = case["backend"], case["workers"], case["count"], case["signal"]
+    d = tempfile.mkdtemp(prefix="hv-c15p-")
+    path, logf = os.path.join(d, "s.sock"), os.path.join(d, "log")
+    cmd = [sys.executable, "-m", "hypercorn", "--bind", "unix:" + path, "--workers", str(workers), "--worker-class", be,
+           "--graceful-timeout", "3", "hv.apps.procapp:app"]
+    proc = subprocess.Popen(cmd, env=dict(os.environ, HV_PROC_LOG=logf), stdout=subprocess.PIPE, stderr=subprocess.STDOUT, cwd=d)
+    results, rc = {}, None
+    try:
+        end = time.monotonic() + 20.0
+        while time.monotonic() < end:
+            try:
+                if open(logf).read().count(" lifespan startup") >= workers:
+                    break
+            except OSError:
+                pass
+            time.sleep(0.05)
+
+        def one(i):
+            c = socket.socket(socket.AF_UNIX)
+            c.settimeout(15.0)
+            try:
+                c.connect(path)
+                # different durations: the workers do not finish their drains at the same moment
+                c.sendall(b"GET /slow%d?%.2f HTTP/1.1\r\nHost: h\r\nConnection: close\r\n\r\n" % (i, 0.3 + 0.25 * i))
+                buf = b""
+                while True:
+                    x = c.recv(65536)
+                    if not x:
+                        break
+                    buf += x
+                results[i] = buf
+            except OSError as e:
+                results[i] = type(e).__name__
+            finally:
+                c.close()
+
+        ths = [threading.Thread(target=one, args=(i,), daemon=True) for i in range(nconn)]
+        for t in ths:
+            t.start()
+        # causal: signal only once every request has been handed to an application
+        end = time.monotonic() + 10.0
+        while time.monotonic() < end:
+            try:
+                if open(logf).read().count(" start /slow") >= nconn:
+                    break
+            except OSError:
+                pass
+            time.sleep(0.02)
+        proc.send_signal(sig)
+        t_sig = time.monotonic()
+        for t in ths:
+            t.join(20.0)
+        try:
+            proc.communicate(timeout=25.0)
+            rc = proc.returncode
+        except subprocess.TimeoutExpired:
+            rc = "timeout"
+    finally:
+        if proc.poll() is None:
+            proc.kill()
+            proc.communicate()
+        log = [ln.split() for ln in (open(logf).read().splitlines() if os.path.exists(logf) else [])]
+        shutil.rmtree(d, ignore_errors=True)
+    log = [f for f in log if len(f) == 4]
+    tally.events["proc.log-lines"] += len(log)
+    n_started = sum(1 for f in log if f[2] == "start")
+    if n_started < nconn or rc == "timeout" and not log:
+        tally.inconclusive["process-run-requests-not-started(%d/%d)" % (n_started, nconn)] += 1
+        return findings, [None]
+    tally.clause("process-signal")
+    bad = [i for i in range(nconn) if not (isinstance(results.get(i), bytes) and results[i].startswith(b"HTTP/1.1 200") and (b"path=/slow%d" % i) in results[i])]
+    if bad:
+        findings.append({"clause": "inflight-delivered", "sig": "C15.process/inflight-lost/%s" % be, "backend": be,
+                         "detail": "%s to the master with %d requests in progress (0.3-1.5 s, graceful_timeout 3 s): requests %r were not delivered in full (%r)" % (
+                             signal.Signals(sig).name, nconn, bad[:6], (results.get(bad[0]) or b"")[:60])})
+    for pid in sorted({f[1] for f in log}):
+        mine = [f for f in log if f[1] == pid]
+        sd = [k for k, f in enumerate(mine) if f[2] == "lifespan" and f[3] == "shutdown"]
+        if len(sd) > 1:
+            findings.append({"clause": "inflight-delivered", "sig": "C15.process/lifespan-shutdown-count-%d/%s" % (len(sd), be), "backend": be, "detail": "worker %s" % pid})
+        elif len(sd) == 1:
+            after = [f for f in mine[sd[0] + 1:] if f[2] in ("start", "done")]
+            if any(f[2] == "done" for f in after) and not bad:
+                findings.append({"clause": "inflight-delivered", "sig": "C15.process/lifespan-shutdown-before-drain/%s" % be, "backend": be,
+                                 "detail": "worker %s: lifespan.shutdown was delivered before %r" % (pid, [f[2] + " " + f[3] for f in after][:4])})
+            if any(f[2] == "start" for f in after):
+                findings.append({"clause": "no-new-work", "sig": "C15.process/request-started-after-lifespan-shutdown/%s" % be, "backend": be,
+                                 "detail": "worker %s started %r after its lifespan.shutdown" % (pid, [f[3] for f in after if f[2] == "start"][:4])})
+        elif any(f[2] == "lifespan" and f[3] == "startup" for f in mine) and rc == 0:
+            findings.append({"clause": "bounded", "sig": "C15.process/no-lifespan-shutdown/%s" % be, "backend": be,
+                             "detail": "worker %s completed its start-up and the master exited with status 0, but the worker was never sent lifespan.shutdown" % pid})
+    if rc == "timeout":
+        findings.append({"clause": "bounded", "sig": "C15.process/master-did-not-exit/%s" % be, "backend": be,
+                         "detail": "the master had not exited 25 s after %s (graceful_timeout 3 s)" % signal.Signals(sig).name})
+    elif rc != 0:
+        findings.append({"clause": "bounded", "sig": "C15.process/master-exit-status/%s" % be, "backend": be,
+                         "detail": "the master exited with status %r after %s and an orderly drain" % (rc, signal.Signals(sig).name)})
+    return findings, [None]
 
 
 def _burst_across_trigger(case, h, tally):
@@ -121,6 +235,8 @@ def _burst_across_trigger(case, h, tally):
 def run_one(case, tally):
     findings = []
     be, kind, count = case["backend"], case["kind"], case["count"]
+    if kind == "process_signal":
+        return _process_signal(case, tally)
     big = 4 * 1024 * 1024
     apps = {
         "lifespan": [["recv"], ["send", {"type": "lifespan.startup.complete"}], ["recv"], ["send", {"type": "lifespan.shutdown.complete"}]],
